@@ -178,6 +178,13 @@ pub struct World {
     /// router keys by label ("k1", ...): the signing request and the key
     /// identifier
     rtr_keys: BTreeMap<String, (rpki::ca::csr::BgpsecCsr, String)>,
+    /// slot name -> the CA it belongs to, for the second (third ...)
+    /// parents of a CA: Krill.tla has one *slot* per (CA, parent) pair; a
+    /// CA's first slot has the CA's own name
+    pub slots: BTreeMap<String, String>,
+    /// slot name -> the parent of the slot (set when the CA is created /
+    /// the parent is added; kept when the parent is removed again)
+    pub slot_parent: BTreeMap<String, String>,
 }
 
 /// A BGPsec router key signing request for a fresh P-256 key.
@@ -264,9 +271,38 @@ impl World {
             rtr_keys: BTreeMap::new(),
             key_roles: HashMap::new(), top: "A".into(),
             last_keys: Value::Null,
+            slots: BTreeMap::new(),
+            slot_parent: BTreeMap::from([("A".to_string(), "ta".to_string())]),
         };
         world.init_ta()?;
         Ok(world)
+    }
+
+    /// The CA a slot belongs to.
+    pub fn ca_of(&self, slot: &str) -> String {
+        self.slots.get(slot).cloned().unwrap_or(slot.to_string())
+    }
+
+    /// The slot of a CA's resource class under a parent (the CA's first
+    /// slot if no slot is registered for the pair).
+    pub fn slot_for(&self, ca: &str, parent: &str) -> String {
+        for (slot, p) in &self.slot_parent {
+            if p == parent && self.ca_of(slot) == ca {
+                return slot.clone()
+            }
+        }
+        ca.to_string()
+    }
+
+    /// All slot names: the CAs ever created and their further slots.
+    fn all_slots(&self) -> Vec<String> {
+        let mut res = self.cas.clone();
+        for (slot, ca) in &self.slots {
+            if self.cas.contains(ca) && !res.contains(slot) {
+                res.push(slot.clone());
+            }
+        }
+        res
     }
 
     /// A restart: a new runtime on the same storage.
@@ -348,7 +384,18 @@ impl World {
         let krill = &self.env.krill;
         let child_handle = ca_handle(child);
         let parent_handle = ca_handle(parent);
-        let response = {
+        let known = parent != "ta" && krill.ca_manager().get_ca(
+            &parent_handle
+        ).map(|p| p.get_child(&child_handle.convert()).is_ok())
+            .unwrap_or(false);
+        let response = if known {
+            // a removed parent is added again: the parent's response for
+            // the child it already knows
+            krill.ca_manager().ca_parent_response(
+                &parent_handle, child_handle.convert(), krill.service_uri()
+            ).map_err(|e| e.to_string())?
+        }
+        else {
             let ca = krill.ca_manager().get_ca(&child_handle).map_err(|e| {
                 e.to_string()
             })?;
@@ -555,17 +602,25 @@ impl World {
         let pending = Ident::make("pending");
         let mut found = None;
         for key in store.keys(Some(pending), "").map_err(|e| e.to_string())? {
+            // (the class name at the end of a ResourceClassRemoved task is
+            // the CA's numbering: matched up to it)
+            let stem = wanted.strip_suffix("_rcn_0").map(|x| {
+                format!("{x}_rcn_")
+            });
             if let Some((ts, name)) = key.as_str().split_once('-')
-                && name == wanted
+                && (name == wanted
+                    || stem.as_ref().map(|s| name.starts_with(s.as_str()))
+                        .unwrap_or(false))
                 && ts.parse::<i64>().unwrap_or(i64::MAX) <= now
             {
-                found = Some(key.clone());
+                found = Some((key.clone(), name.to_string()));
                 break
             }
         }
-        let Some(key) = found else {
+        let Some((key, actual)) = found else {
             return self.step_task()
         };
+        let wanted = actual.as_str();
         let value: Value = store.get(Some(pending), &key).map_err(|e| {
             e.to_string()
         })?.ok_or("task vanished")?;
@@ -951,10 +1006,14 @@ impl World {
     /// key identifier -> (ca, role); refreshed from the live CAs, entries
     /// of deleted CAs keep their last known value.
     fn refresh_key_roles(&mut self, cas: &BTreeMap<String, Value>) {
-        for (name, ca) in cas {
+        for (ca_name, ca) in cas {
             let Some(rcs) = ca.get("resources").and_then(|r| r.as_object())
             else { continue };
             for rc in rcs.values() {
+                // the slot of the class: by its parent
+                let name = &self.slot_for(
+                    ca_name, rc["parent_handle"].as_str().unwrap_or("")
+                );
                 let ks = &rc["key_state"];
                 let Some((_, body)) = ks.as_object().and_then(|m| {
                     m.iter().next()
@@ -1029,42 +1088,73 @@ impl World {
         let mut odd: Vec<String> = Vec::new();
         let no_certs = || json!({"cur": [], "new": [], "old": []});
 
-        for name in self.cas.clone() {
-            exists.insert(name.clone(), json!(full.contains_key(&name)));
+        let mut hasp = Map::new();
+        for slot in self.all_slots() {
+            // the CA the slot belongs to; what krill keeps per CA is
+            // projected at the CA's first slot
+            let name = self.ca_of(&slot);
+            let first = name == slot;
+            exists.insert(
+                slot.clone(), json!(first && full.contains_key(&name))
+            );
             // defaults
-            rc.insert(name.clone(), json!("none"));
-            rcv.insert(name.clone(), no_certs());
-            req.insert(name.clone(), json!([]));
-            routes.insert(name.clone(), json!([]));
-            if !ent.contains_key(&name) {
-                ent.insert(name.clone(), json!([]));
-                cstate.insert(name.clone(), json!("none"));
-                iss.insert(name.clone(), no_certs());
-                sus.insert(name.clone(), no_certs());
+            rc.insert(slot.clone(), json!("none"));
+            rcv.insert(slot.clone(), no_certs());
+            req.insert(slot.clone(), json!([]));
+            routes.insert(slot.clone(), json!([]));
+            if !ent.contains_key(&slot) {
+                ent.insert(slot.clone(), json!([]));
+                cstate.insert(slot.clone(), json!("none"));
+                iss.insert(slot.clone(), no_certs());
+                sus.insert(slot.clone(), no_certs());
             }
             let Some(ca) = full.get(&name) else { continue };
             // parents
             let parents: Vec<String> = ca["parents"].as_object().map(|m| {
                 m.keys().cloned().collect()
             }).unwrap_or_default();
-            if parents.len() > 1 {
-                odd.push(format!("{name}: several parents"));
+            let my_parent = self.slot_parent.get(&slot).cloned()
+                .unwrap_or("none".into());
+            if first {
+                for p in &parents {
+                    if self.slot_for(&name, p) == name
+                        && self.slot_parent.get(&name) != Some(p)
+                    {
+                        odd.push(format!("{name}: parent {p} without slot"));
+                    }
+                }
             }
-            parent.insert(
-                name.clone(),
-                json!(parents.first().cloned().unwrap_or("none".into()))
-            );
-            // resource class (at most one in this model)
-            let rcs = ca["resources"].as_object().cloned().unwrap_or_default();
+            parent.insert(slot.clone(), json!(my_parent));
+            hasp.insert(slot.clone(), json!(parents.contains(&my_parent)));
+            // the resource class of the slot: the one under its parent (at
+            // most one in this model: parents have one class)
+            let all_rcs = ca["resources"].as_object().cloned()
+                .unwrap_or_default();
+            let rcs: Vec<&Value> = all_rcs.values().filter(|rc| {
+                rc["parent_handle"].as_str() == Some(my_parent.as_str())
+            }).collect();
             if rcs.len() > 1 {
-                odd.push(format!("{name}: several resource classes"));
+                odd.push(format!(
+                    "{name}: several resource classes under {my_parent}"
+                ));
             }
-            if let Some(rcv_rc) = rcs.values().next() {
+            if first {
+                for rc in all_rcs.values() {
+                    let p = rc["parent_handle"].as_str().unwrap_or("");
+                    if self.slot_for(&name, p) == name
+                        && self.slot_parent.get(&name).map(|x| x.as_str())
+                            != Some(p)
+                    {
+                        odd.push(format!("{name}: class under {p} without slot"));
+                    }
+                }
+            }
+            if let Some(rcv_rc) = rcs.first() {
                 let ks = &rcv_rc["key_state"];
                 let state = ks.as_object().and_then(|m| {
                     m.keys().next().cloned()
                 }).unwrap_or_default();
-                rc.insert(name.clone(), json!(state));
+                rc.insert(slot.clone(), json!(state));
                 let body = &ks[&state];
                 let mut certs = Map::new();
                 for r in ROLES {
@@ -1109,9 +1199,12 @@ impl World {
                     }
                     other => odd.push(format!("{name}: key state {other}")),
                 }
-                rcv.insert(name.clone(), Value::Object(certs));
+                rcv.insert(slot.clone(), Value::Object(certs));
                 reqs.sort();
-                req.insert(name.clone(), json!(reqs));
+                req.insert(slot.clone(), json!(reqs));
+            }
+            if !first {
+                continue
             }
             // routes
             let handle = ca_handle(&name);
@@ -1149,10 +1242,12 @@ impl World {
                 }
                 routes.insert(name.clone(), json!(rs));
             }
-            // the children this CA knows
+            // the children this CA knows (by the slot of the child under
+            // this CA)
             let children = ca["children"].as_object().cloned()
                 .unwrap_or_default();
-            for (child, details) in &children {
+            for (child_ca, details) in &children {
+                let child = &self.slot_for(child_ca, &name);
                 ent.insert(
                     child.clone(), json!(atoms_of_json(&details["resources"]))
                 );
@@ -1163,7 +1258,7 @@ impl World {
                     issued.insert(r.into(), json!([]));
                     suspended.insert(r.into(), json!([]));
                 }
-                for rcv_rc in rcs.values() {
+                for rcv_rc in all_rcs.values() {
                     for (field, target) in [
                         ("issued", &mut issued),
                         ("suspended", &mut suspended),
@@ -1178,14 +1273,15 @@ impl World {
                             if !used {
                                 continue
                             }
-                            let role = self.key_roles.get(key).map(|x| {
-                                x.1.clone()
-                            }).unwrap_or("?".into());
+                            let (kslot, role) = self.key_roles.get(key)
+                                .cloned().unwrap_or(("?".into(), "?".into()));
                             let res = atoms_of_json(&cert["resources"]);
-                            if role == "pend" || role == "?" {
+                            if role == "pend" || role == "?"
+                                || &kslot != child
+                            {
                                 odd.push(format!(
                                     "{name}: cert for {child} key in role \
-                                    {role}"
+                                    {kslot}:{role}"
                                 ));
                             }
                             else {
@@ -1209,16 +1305,23 @@ impl World {
             sus.insert(top.clone(), no_certs());
         }
         // A child whose parent exists but does not list it is unknown there.
-        for name in self.cas.clone() {
-            let p = parent.get(&name).and_then(|x| x.as_str())
+        for slot in self.all_slots() {
+            let p = parent.get(&slot).and_then(|x| x.as_str())
                 .unwrap_or("none").to_string();
             if let Some(pca) = full.get(&p) {
-                if pca["children"].get(&name).is_none() {
-                    ent.insert(name.clone(), json!([]));
-                    cstate.insert(name.clone(), json!("none"));
-                    iss.insert(name.clone(), no_certs());
-                    sus.insert(name.clone(), no_certs());
+                if pca["children"].get(self.ca_of(&slot)).is_none() {
+                    ent.insert(slot.clone(), json!([]));
+                    cstate.insert(slot.clone(), json!("none"));
+                    iss.insert(slot.clone(), no_certs());
+                    sus.insert(slot.clone(), no_certs());
                 }
+            }
+        }
+        // (a slot of a deleted CA: nothing is known about its parent)
+        for slot in self.all_slots() {
+            if !full.contains_key(&self.ca_of(&slot)) {
+                parent.remove(&slot);
+                hasp.remove(&slot);
             }
         }
         // tasks that are due
@@ -1233,17 +1336,23 @@ impl World {
                     }
                 }
                 else if let Some(rest) = t.strip_prefix("sync_")
-                    && let Some((ca, _p)) = rest.split_once("_with_parent_")
+                    && let Some((ca, p)) = rest.split_once("_with_parent_")
                 {
                     if ca != self.top {
-                        tasks.insert(vec!["sync_parent".into(), ca.into()]);
+                        tasks.insert(vec![
+                            "sync_parent".into(), self.slot_for(ca, p)
+                        ]);
                     }
                 }
                 else if let Some(rest)
                     = t.strip_prefix("resource_class_removed_ca_")
-                    && let Some((ca, _)) = rest.split_once("_parent_")
+                    && let Some((ca, rest)) = rest.split_once("_parent_")
                 {
-                    tasks.insert(vec!["rc_removed".into(), ca.into()]);
+                    let p = rest.rsplit_once("_rcn_").map(|x| x.0)
+                        .unwrap_or(rest);
+                    tasks.insert(vec![
+                        "rc_removed".into(), self.slot_for(ca, p)
+                    ]);
                 }
                 else {
                     other_tasks.push(t.to_string());
@@ -1278,22 +1387,34 @@ impl World {
             }
         }
         let repo = self.env.krill.repo_manager();
-        for name in self.cas.clone() {
+        for slot in self.all_slots() {
+            let name = self.ca_of(&slot);
+            let first = name == slot;
             let Some(st) = statuses.get(&name) else { continue };
+            let p = parent.get(&slot).and_then(|x| x.as_str())
+                .unwrap_or("none").to_string();
+            let ps = &st["parents"][&p];
+            // (status entries for parents no slot stands for)
+            let others: Vec<String> = if first {
+                st["parents"].as_object().map(|m| {
+                    m.keys().filter(|k| {
+                        self.slot_for(&name, k) == name
+                            && self.slot_parent.get(&name) != Some(*k)
+                    }).cloned().collect::<Vec<_>>()
+                }).unwrap_or_default()
+            } else { Vec::new() };
+            pst.insert(slot.clone(), json!({
+                "last": outcome(&ps["last_exchange"]),
+                "ents": atoms_of_json(&ps["all_resources"]),
+                "others": others,
+            }));
+            if !first {
+                continue
+            }
             let details = repo.get_publisher_details(
                 ca_handle(&name).convert()
             ).ok().map(|d| serde_json::to_value(&d).unwrap());
             pubknown.insert(name.clone(), json!(details.is_some()));
-            let p = parent.get(&name).and_then(|x| x.as_str())
-                .unwrap_or("none").to_string();
-            let ps = &st["parents"][&p];
-            pst.insert(name.clone(), json!({
-                "last": outcome(&ps["last_exchange"]),
-                "ents": atoms_of_json(&ps["all_resources"]),
-                "others": st["parents"].as_object().map(|m| {
-                    m.keys().filter(|k| **k != p).cloned().collect::<Vec<_>>()
-                }).unwrap_or_default(),
-            }));
             let mut shown: Vec<(String, String)> = st["repo"]["published"]
                 .as_array().cloned().unwrap_or_default().iter().map(|f| {
                     (f["uri"].as_str().unwrap_or("").to_string(),
@@ -1323,22 +1444,24 @@ impl World {
             if let Some(children) = st["children"].as_object() {
                 for (child, cs) in children {
                     kst.insert(
-                        child.clone(), json!(outcome(&cs["last_exchange"]))
+                        self.slot_for(child, &name),
+                        json!(outcome(&cs["last_exchange"]))
                     );
                 }
             }
         }
         // children without an entry at an existing parent
-        for name in self.cas.clone() {
-            let p = parent.get(&name).and_then(|x| x.as_str())
+        for slot in self.all_slots() {
+            let p = parent.get(&slot).and_then(|x| x.as_str())
                 .unwrap_or("none").to_string();
-            if statuses.contains_key(&p) && !kst.contains_key(&name) {
-                kst.insert(name.clone(), json!("none"));
+            if statuses.contains_key(&p) && !kst.contains_key(&slot) {
+                kst.insert(slot.clone(), json!("none"));
             }
         }
         json!({
             "pst": pst, "rst": rst, "kst": kst, "pubknown": pubknown,
-            "exists": exists, "parent": parent, "ent": ent, "cstate": cstate,
+            "exists": exists, "parent": parent, "hasp": hasp,
+            "ent": ent, "cstate": cstate,
             "iss": iss, "sus": sus, "rc": rc, "rcv": rcv, "req": req,
             "routes": routes, "pub": pubs, "tasks": tasks,
             "keys": self.last_keys.clone(),
@@ -1361,6 +1484,7 @@ impl World {
         for v in &res.vrps {
             let (ca, role) = self.key_roles.get(&v.3).cloned()
                 .unwrap_or(("?".into(), "?".into()));
+            let ca = self.ca_of(&ca);
             if role != "cur" && role != "old" {
                 odd.push(format!("vrp under key {ca}:{role}"));
             }
@@ -1369,6 +1493,7 @@ impl World {
         for r in &res.router_keys {
             let (ca, role) = self.key_roles.get(&r.2).cloned()
                 .unwrap_or(("?".into(), "?".into()));
+            let ca = self.ca_of(&ca);
             if role != "cur" && role != "old" {
                 odd.push(format!("router key under key {ca}:{role}"));
             }
@@ -1379,6 +1504,7 @@ impl World {
         for a in &res.aspas {
             let (ca, role) = self.key_roles.get(&a.2).cloned()
                 .unwrap_or(("?".into(), "?".into()));
+            let ca = self.ca_of(&ca);
             if role != "cur" && role != "old" {
                 odd.push(format!("aspa under key {ca}:{role}"));
             }
@@ -1400,16 +1526,23 @@ impl World {
         let mut res = Map::new();
         // serial-number level facts per key (by abstract key name)
         let mut keyfacts: BTreeMap<String, KeyFacts> = BTreeMap::new();
+        #[derive(Default)]
+        struct SlotPub {
+            cur: bool, new: bool, old: bool,
+            vrps: BTreeSet<Vec<String>>,
+            kids: BTreeSet<(String, String, Vec<String>)>,
+            ovrps: BTreeSet<Vec<String>>,
+            okids: BTreeSet<(String, String, Vec<String>)>,
+        }
         for name in self.cas.clone() {
-            let mut cur = false;
-            let mut new = false;
-            let mut old = false;
-            let mut vrps: BTreeSet<Vec<String>> = BTreeSet::new();
-            let mut kids: BTreeSet<(String, String, Vec<String>)>
-                = BTreeSet::new();
-            let mut ovrps: BTreeSet<Vec<String>> = BTreeSet::new();
-            let mut okids: BTreeSet<(String, String, Vec<String>)>
-                = BTreeSet::new();
+            // what is published per slot of the CA (by the key that signed
+            // it: every resource class has its own keys)
+            let mut per: BTreeMap<String, SlotPub> = BTreeMap::new();
+            for slot in self.all_slots() {
+                if self.ca_of(&slot) == name {
+                    per.insert(slot, SlotPub::default());
+                }
+            }
             let mut stray: Vec<String> = Vec::new();
             // route origin objects aggregated per origin AS (AS<n>.roa)
             let mut agg = false;
@@ -1422,11 +1555,17 @@ impl World {
                 Err(_) => Vec::new(),
             };
             let _ = full;
-            let role_of = |this: &Self, key: &str| -> String {
+            // the slot and role of a key of this CA ("" = not one of its
+            // slots)
+            let role_of = |this: &Self, key: &str| -> (String, String) {
                 match this.key_roles.get(key) {
-                    Some((ca, role)) if ca == &name => role.clone(),
-                    Some((ca, role)) => format!("{ca}:{role}"),
-                    None => "?".into(),
+                    Some((slot, role)) if this.ca_of(slot) == name => {
+                        (slot.clone(), role.clone())
+                    }
+                    Some((slot, role)) => {
+                        (String::new(), format!("{slot}:{role}"))
+                    }
+                    None => (String::new(), "?".into()),
                 }
             };
             for f in files {
@@ -1456,10 +1595,12 @@ impl World {
                                 .to_string()
                         }).collect();
                     }
-                    match role_of(self, key).as_str() {
-                        "cur" => cur = true,
-                        "new" => new = true,
-                        "old" => old = true,
+                    let (slot, role) = role_of(self, key);
+                    let acc = per.entry(slot).or_default();
+                    match role.as_str() {
+                        "cur" => acc.cur = true,
+                        "new" => acc.new = true,
+                        "old" => acc.old = true,
                         other => stray.push(format!("mft of key {other}")),
                     }
                 }
@@ -1482,7 +1623,7 @@ impl World {
                         Ok(roa) => {
                             let aki = roa.cert().authority_key_identifier()
                                 .map(|k| k.to_string()).unwrap_or_default();
-                            let role = role_of(self, &aki);
+                            let (slot, role) = role_of(self, &aki);
                             {
                                 let kname = self.key_name(&aki);
                                 let serial = roa.cert().serial_number();
@@ -1503,12 +1644,14 @@ impl World {
                                     addr.address_length()
                                 );
                                 if role == "cur" {
-                                    vrps.insert(vec![
+                                    per.entry(slot.clone()).or_default()
+                                        .vrps.insert(vec![
                                         prefix_atom(&pfx), asn_atom(asn)
                                     ]);
                                 }
                                 else if role == "old" {
-                                    ovrps.insert(vec![
+                                    per.entry(slot.clone()).or_default()
+                                        .ovrps.insert(vec![
                                         prefix_atom(&pfx), asn_atom(asn)
                                     ]);
                                 }
@@ -1527,7 +1670,7 @@ impl World {
                         Ok(cert) => {
                             let aki = cert.authority_key_identifier()
                                 .map(|k| k.to_string()).unwrap_or_default();
-                            let role = role_of(self, &aki);
+                            let (slot, role) = role_of(self, &aki);
                             {
                                 let kname = self.key_name(&aki);
                                 let serial = cert.serial_number();
@@ -1564,10 +1707,12 @@ impl World {
                                         format!("rtr:{label}"),
                                     ];
                                     if role == "cur" {
-                                        vrps.insert(t);
+                                        per.entry(slot.clone()).or_default()
+                                            .vrps.insert(t);
                                     }
                                     else if role == "old" {
-                                        ovrps.insert(t);
+                                        per.entry(slot.clone()).or_default()
+                                            .ovrps.insert(t);
                                     }
                                     else {
                                         stray.push(format!(
@@ -1583,10 +1728,12 @@ impl World {
                             let atoms = set.as_ref().map(atoms_of)
                                 .unwrap_or(vec!["?".into()]);
                             if role == "cur" {
-                                kids.insert((child, crole, atoms));
+                                per.entry(slot.clone()).or_default()
+                                    .kids.insert((child, crole, atoms));
                             }
                             else if role == "old" {
-                                okids.insert((child, crole, atoms));
+                                per.entry(slot.clone()).or_default()
+                                    .okids.insert((child, crole, atoms));
                             }
                             else {
                                 stray.push(format!(
@@ -1602,7 +1749,7 @@ impl World {
                         Ok(aspa) => {
                             let aki = aspa.cert().authority_key_identifier()
                                 .map(|k| k.to_string()).unwrap_or_default();
-                            let role = role_of(self, &aki);
+                            let (slot, role) = role_of(self, &aki);
                             {
                                 let kname = self.key_name(&aki);
                                 let serial = aspa.cert().serial_number();
@@ -1623,10 +1770,12 @@ impl World {
                                     .map(|p| p.into_u32()).collect()
                             );
                             if role == "cur" {
-                                vrps.insert(tuple);
+                                per.entry(slot.clone()).or_default()
+                                    .vrps.insert(tuple);
                             }
                             else if role == "old" {
-                                ovrps.insert(tuple);
+                                per.entry(slot.clone()).or_default()
+                                    .ovrps.insert(tuple);
                             }
                             else {
                                 stray.push(format!(
@@ -1641,18 +1790,22 @@ impl World {
                     stray.push(format!("unknown file {fname}"));
                 }
             }
-            res.insert(name.clone(), json!({
-                "cur": cur, "new": new, "old": old,
-                "vrps": vrps, "agg": agg,
-                "kids": kids.into_iter().map(|k| {
-                    json!([k.0, k.1, k.2])
-                }).collect::<Vec<_>>(),
-                "ovrps": ovrps,
-                "okids": okids.into_iter().map(|k| {
-                    json!([k.0, k.1, k.2])
-                }).collect::<Vec<_>>(),
-                "stray": stray,
-            }));
+            per.remove("");
+            for (slot, acc) in per {
+                let first = slot == name;
+                res.insert(slot, json!({
+                    "cur": acc.cur, "new": acc.new, "old": acc.old,
+                    "vrps": acc.vrps, "agg": agg,
+                    "kids": acc.kids.into_iter().map(|k| {
+                        json!([k.0, k.1, k.2])
+                    }).collect::<Vec<_>>(),
+                    "ovrps": acc.ovrps,
+                    "okids": acc.okids.into_iter().map(|k| {
+                        json!([k.0, k.1, k.2])
+                    }).collect::<Vec<_>>(),
+                    "stray": if first { stray.clone() } else { Vec::new() },
+                }));
+            }
         }
         // the manifest numbers in the CAs' own object stores
         let mut store_numbers: HashMap<String, i64> = HashMap::new();
@@ -1756,23 +1909,25 @@ pub fn list_arg(v: &Value, key: &str) -> Vec<String> {
 
 /// Classifies a task name: [kind, ca] with kind one of sync_parent,
 /// sync_repo, rc_removed, other.
-fn task_kind(name: &str, top: &str) -> Value {
+fn task_kind(w: &World, name: &str) -> Value {
+    let top = w.top.as_str();
     if let Some(ca) = name.strip_prefix("sync_repo_") {
         if ca != "ta" {
             return json!(["sync_repo", ca])
         }
     }
     else if let Some(rest) = name.strip_prefix("sync_")
-        && let Some((ca, _)) = rest.split_once("_with_parent_")
+        && let Some((ca, p)) = rest.split_once("_with_parent_")
     {
         if ca != top {
-            return json!(["sync_parent", ca])
+            return json!(["sync_parent", w.slot_for(ca, p)])
         }
     }
     else if let Some(rest) = name.strip_prefix("resource_class_removed_ca_")
-        && let Some((ca, _)) = rest.split_once("_parent_")
+        && let Some((ca, rest)) = rest.split_once("_parent_")
     {
-        return json!(["rc_removed", ca])
+        let p = rest.rsplit_once("_rcn_").map(|x| x.0).unwrap_or(rest);
+        return json!(["rc_removed", w.slot_for(ca, p)])
     }
     json!(["other", name])
 }
@@ -1813,42 +1968,74 @@ pub fn apply_action(w: &mut World, action: &Value) -> Result<Value, String> {
             w.add_ca(c)?;
             let p = str_arg(action, "p");
             if !p.is_empty() {
+                w.slot_parent.insert(c.to_string(), p.to_string());
                 w.add_parent(c, p, &list_arg(action, "res"))?;
             }
             Ok(json!("ok"))
         }
         "AddParent" => {
-            w.add_parent(
-                str_arg(action, "c"), str_arg(action, "p"),
-                &list_arg(action, "res")
-            )?;
+            // (c is a slot: the CA's class under this parent)
+            let slot = str_arg(action, "c");
+            let ca = w.ca_of(slot);
+            let p = str_arg(action, "p");
+            // a generated behaviour may not be applicable to the real state
+            let exists = w.env.krill.ca_manager().has_ca(&ca_handle(&ca))
+                .unwrap_or(false);
+            let pexists = w.env.krill.ca_manager().has_ca(&ca_handle(p))
+                .unwrap_or(false);
+            if !exists || !pexists {
+                return Ok(json!({"skipped": true}))
+            }
+            let known = w.slot_parent.get(slot).cloned();
+            if known.is_some() && known.as_deref() != Some(p) {
+                return Ok(json!({"skipped": true}))
+            }
+            w.slot_parent.insert(slot.to_string(), p.to_string());
+            let res = w.add_parent(&ca, p, &list_arg(action, "res"));
+            if res.is_err() && known.is_none() {
+                // (a refused first addition leaves the slot unused)
+                let child_known = w.env.krill.ca_manager().get_ca(
+                    &ca_handle(p)
+                ).map(|pc| {
+                    pc.get_child(&ca_handle(&ca).convert()).is_ok()
+                }).unwrap_or(false);
+                if !child_known {
+                    w.slot_parent.remove(slot);
+                }
+            }
+            res?;
             Ok(json!("ok"))
         }
         "RemoveParent" => {
-            w.remove_parent(str_arg(action, "c"), str_arg(action, "p"))?;
+            let ca = w.ca_of(str_arg(action, "c"));
+            w.remove_parent(&ca, str_arg(action, "p"))?;
             Ok(json!("ok"))
         }
         "ChildRes" => {
+            let ca = w.ca_of(str_arg(action, "c"));
             w.child_update(
-                str_arg(action, "p"), str_arg(action, "c"),
+                str_arg(action, "p"), &ca,
                 Some(&list_arg(action, "res")), None
             )?;
             Ok(json!("ok"))
         }
         "ChildSuspend" => {
+            let ca = w.ca_of(str_arg(action, "c"));
             w.child_update(
-                str_arg(action, "p"), str_arg(action, "c"), None, Some(true)
+                str_arg(action, "p"), &ca, None, Some(true)
             )?;
             Ok(json!("ok"))
         }
         "ChildUnsuspend" => {
+            let ca = w.ca_of(str_arg(action, "c"));
             w.child_update(
-                str_arg(action, "p"), str_arg(action, "c"), None, Some(false)
+                str_arg(action, "p"), &ca, None, Some(false)
             )?;
             Ok(json!("ok"))
         }
         "ChildRemove" => {
-            w.child_remove(str_arg(action, "p"), str_arg(action, "c"))?;
+            let ca = w.ca_of(str_arg(action, "c"));
+            w.child_remove(str_arg(action, "p"), &ca)?;
             Ok(json!("ok"))
         }
         "DeleteCa" => {
@@ -1868,8 +2055,9 @@ pub fn apply_action(w: &mut World, action: &Value) -> Result<Value, String> {
             Ok(json!("ok"))
         }
         "ChildMap" => {
+            let ca = w.ca_of(str_arg(action, "c"));
             w.child_map(
-                str_arg(action, "p"), str_arg(action, "c"),
+                str_arg(action, "p"), &ca,
                 str_arg(action, "in_parent"), str_arg(action, "for_child"),
             )?;
             Ok(json!("ok"))
@@ -2027,6 +2215,7 @@ pub fn run(behaviours: &Path, out: &Path, workdir: &Path, memory: bool) {
         refill_keys(idx * 37);
         trace.push(&json!({
             "ev": "reset", "behaviour": id,
+            "slots": beh.get("slots").cloned().unwrap_or(json!([])),
             "agg": beh.get("agg").and_then(|x| x.as_u64()).unwrap_or(100),
             "deagg": beh.get("deagg").and_then(|x| x.as_u64()).unwrap_or(90),
             "mftdue": beh.get("mftdue").and_then(|x| x.as_bool())
@@ -2045,6 +2234,19 @@ pub fn run(behaviours: &Path, out: &Path, workdir: &Path, memory: bool) {
                 continue
             }
         };
+        // further slots of CAs with several parents: [[slot, ca], ...]
+        for pair in beh.get("slots").and_then(|x| x.as_array()).cloned()
+            .unwrap_or_default()
+        {
+            if let (Some(slot), Some(ca)) = (
+                pair.get(0).and_then(|x| x.as_str()),
+                pair.get(1).and_then(|x| x.as_str()),
+            ) {
+                world.slots.insert(slot.to_string(), ca.to_string());
+            }
+        }
+        let top_name = world.top.clone();
+        world.slot_parent.insert(top_name, "ta".into());
         let full_proj = std::env::var_os("VERIF_FULL_PROJ").is_some();
         // The top CA under the trust anchor, with fixed holdings.
         if let Some(topres) = beh.get("top").and_then(|t| t.as_array()) {
@@ -2139,7 +2341,7 @@ pub fn run(behaviours: &Path, out: &Path, workdir: &Path, memory: bool) {
                     if let Some(t) = v.get("task") {
                         line["task"] = t.clone();
                         line["tk"] = task_kind(
-                            t.as_str().unwrap_or(""), &world.top
+                            &world, t.as_str().unwrap_or("")
                         );
                     }
                     else if !v.is_string() {
